@@ -236,10 +236,18 @@ def work_history(bins, seed, idx, nops, nobs_cap, tmp):
             import subprocess as _sp
             cid = rng.choice(repo.commits)["id"]
             wt = os.path.join(os.path.dirname(path), "linked")
-            rr = _sp.run([core.REAL_GIT, "-C", repo.path, "worktree", "add", "-q", "--detach", wt, repo.commits[cid]["sha"]], env=repo.env, capture_output=True)
+            # half of them on a branch of their own (`worktree add -b`): HEAD then lives in .git/worktrees/<name>/HEAD, not in <worktree>/.git/HEAD
+            wt_branch = "wt-line" if (rng.random() < 0.5 and "wt-line" not in repo.branches) else None
+            how_ = ["-b", wt_branch] if wt_branch else ["--detach"]
+            rr = _sp.run([core.REAL_GIT, "-C", repo.path, "worktree", "add", "-q"] + how_ + [wt, repo.commits[cid]["sha"]], env=repo.env, capture_output=True)
             if rr.returncode == 0:
                 saved = (repo.head, repo.path)
-                repo.head, repo.path = ("detached", cid), wt
+                if wt_branch:
+                    repo.branches[wt_branch] = cid
+                    repo.head, repo.path = ("branch", wt_branch), wt
+                    st("linked_worktree_on_a_branch")
+                else:
+                    repo.head, repo.path = ("detached", cid), wt
                 try:
                     fmt = rng.choice(FORMATS)
                     kind = rng.choice(["clean", "clean", "untracked", "modified"])
@@ -258,6 +266,8 @@ def work_history(bins, seed, idx, nops, nobs_cap, tmp):
                                             dict(seed=seed, idx=idx, nops=nops, ops=list(repo.ops) + ["worktree add --detach c%d" % cid], fmt=fmt, dirt=kind, via=via)))
                 finally:
                     repo.head, repo.path = saved
+                    if wt_branch:
+                        repo.branches.pop(wt_branch, None)
     finally:
         if repo is not None:
             shutil_rm(os.path.dirname(path))
@@ -302,6 +312,41 @@ def work_submodule(bins, seed, idx, tmp):
     return dict(n=n, bad=bad)
 
 
+def work_long(bins, seed, idx, tmp):
+    """a long linear history (the listing of its commits is far larger than a pipe buffer) with the tag a few commits below HEAD"""
+    import subprocess as _sp
+    rng = random.Random("%s/long%d" % (seed, idx))
+    home = os.path.join(tmp, "long%d" % idx)
+    path = os.path.join(home, "repo")
+    os.makedirs(path, exist_ok=True)
+    env = gitmodel.git_env(home)
+    n = rng.choice([1800, 2600, 4000])
+    dist = rng.choice([0, 3, 17])
+    bad = []
+    try:
+        script = "git init -q -b main . && for i in $(seq %d); do git commit -q --allow-empty -m c$i || exit 1; done && git tag v4.5.6 HEAD~%d && git rev-parse HEAD && git rev-parse v4.5.6" % (n, dist)
+        e = dict(env, GIT_COMMITTER_DATE="@1700000000 +0000", GIT_AUTHOR_DATE="@1700000000 +0000", PATH=os.path.dirname(core.REAL_GIT) + ":" + env.get("PATH", "/usr/bin:/bin"))
+        r = _sp.run(["sh", "-c", script], cwd=path, env=e, capture_output=True, text=True)
+        if r.returncode != 0:
+            raise core.Inconclusive("long-history generator: %s" % r.stderr[-200:])
+        head_sha, tag_sha = r.stdout.split()[-2:]
+        r = core.run_zerv(bins, ["version", "-C", path, "--output-format", "zerv"], env=core.base_env(bins, home=home), timeout=240)
+        case = dict(kind="long", seed=seed, idx=idx)
+        if r["timeout"]:
+            return dict(n=1, bad=[])
+        if r["exit"] != 0:
+            bad.append(("valid-tag-not-found", "[history of %d commits, tag %d below HEAD] zerv failed: %s" % (n, dist, r["err"].strip()[:200]), case))
+        else:
+            _, v = ron.decode_zerv(r["out"])
+            got = (v["last_tag_version"], v["distance"], _strip_g(v["bumped_commit_hash"]), _strip_g(v["last_commit_hash"]), v["dirty"], v["bumped_branch"])
+            want = ("v4.5.6", dist, head_sha, tag_sha, False, "main")
+            if got != want:
+                bad.append(("distance-differs" if got[1] != want[1] else "head-hash-differs", "[history of %d commits] reported %r, the repository says %r" % (n, got, want), case))
+    finally:
+        shutil_rm(home)
+    return dict(n=1, bad=bad)
+
+
 def run(ctx):
     quick = ctx.tier == "quick"
     nh = 320 if quick else 12000
@@ -326,6 +371,11 @@ def run(ctx):
         ctx.count("submodule_observations", r["n"])
         for sig, why, case in r["bad"]:
             ctx.refute(sig, why, case)
+    for r in core.pmap(work_long, [(ctx.bins, "%s/%d" % (ctx.prop, ctx.seed), i, ctx.tmp) for i in range(3 if quick else 16)]):
+        ctx.evaluations += r["n"]
+        ctx.count("long_history_observations", r["n"])
+        for sig, why, case in r["bad"]:
+            ctx.refute(sig, why, case)
     ctx.notes.append("git sub-commands seen in shim logs: %s" % sorted(gitcmds))
     need = ["merge_in_history", "unreachable_valid_tag_present", "multi_tag_commit", "head:detached", "no_valid_tag_states", "annotated_on_chosen_commit"] + \
            ["dirt:" + k for k in gitmodel.DIRT_KINDS]
@@ -342,7 +392,10 @@ def run(ctx):
 
 def replay(ctx, doc):
     c = doc["case"]
-    if c.get("kind") == "submodule":
+    if c.get("kind") == "long":
+        r = work_long(ctx.bins, c["seed"], c["idx"], ctx.tmp)
+        r["nobs"] = r["n"]
+    elif c.get("kind") == "submodule":
         r = work_submodule(ctx.bins, c["seed"], c["idx"], ctx.tmp)
         r["nobs"] = r["n"]
     else:
